@@ -81,11 +81,15 @@ def regenerate(ctx):
             changed.append(ns)
     try:
         import pyexpr2lean
-        b, c = pyexpr2lean.regenerate_all(SRC, os.path.join(LEAN, "GSV", "Gen"))
-        broken += b
-        changed += c
     except ImportError:
-        pass
+        pyexpr2lean = None
+    if pyexpr2lean is not None:
+        try:
+            b, c = pyexpr2lean.regenerate_all(SRC, os.path.join(LEAN, "GSV", "Gen"))
+            broken += b
+            changed += c
+        except Exception as e:
+            broken.append({"kind": "translator", "file": "pyexpr2lean", "detail": f"pyexpr2lean: {type(e).__name__}: {e}"})
     if changed:
         ctx.log("generated definitions changed:", changed)
     return broken, changed
